@@ -3,7 +3,7 @@
    EVERY x in dom, the checked-access run f x is neither Crash (an index/slice
    out of range or an explicit panic) nor Hang (fuel = one unit per loop
    iteration, len+1 given). *)
-From V Require Import Common.Base C16.Checked C16.Spec C16.Wtf8 C16.Vlq16 C16.CssNum C16.Pieces C16.Packet C16.CssIdent
+From V Require Import Common.Base C16.Checked C16.Spec C16.Wtf8 C16.Vlq16 C16.CssNum C16.Pieces C16.Packet C16.CssIdent C16.JsxEntities
   C16.Proofs C16.PanicSites C16.DecodeLoops.
 From V Require Import gen.PanicSitesGen gen.DecodeLoopsGen.
 From Coq Require Import String.
@@ -83,6 +83,17 @@ Print Assumptions decoder_total_RangeOfIdentifier.
 Theorem RangeOfIdentifier_total_refuted_without_end_test : forall fuel, RangeOfIdentifier_fuel false [120] fuel = Hang.
 Proof. exact unguarded_RangeOfIdentifier_hangs. Qed.
 Print Assumptions RangeOfIdentifier_total_refuted_without_end_test.
+
+(* js_lexer.decodeJSXEntities (JSX text and attribute strings) with the guard "length > 0" in front of
+   entity[0]: every byte string, every entity table *)
+Theorem decoder_total_decodeJSXEntities : forall lookup, total_on all_bytes (decodeJSXEntities true lookup).
+Proof. exact total_decodeJSXEntities. Qed.
+Print Assumptions decoder_total_decodeJSXEntities.
+
+(* ... and that guard is necessary: with "length != -1" the empty entity "&;" crashes at entity[0] *)
+Theorem decodeJSXEntities_total_refuted_with_weak_guard : forall lookup, decodeJSXEntities false lookup [38; 59] = Crash.
+Proof. exact weak_guard_decodeJSXEntities_crashes. Qed.
+Print Assumptions decodeJSXEntities_total_refuted_with_weak_guard.
 
 (* stdio protocol: readLengthPrefixedSlice is total on bytes ... *)
 Theorem decoder_total_readLengthPrefixedSlice : total_on all_bytes readLengthPrefixedSlice.
